@@ -77,9 +77,14 @@ def agree(prog, want, got):
     return got["ty"] == wt and got["v"] == want["v"]
 
 
+LAST_WANT = None
+
+
 def compare(chk, binp, progs, wd, tag, devs_known, what):
     """devs_known: {deviation switch: finding id}. Adds violations / known hits to chk; returns (n, disagreements)."""
+    global LAST_WANT
     want, states = tlc_eval(progs, wd, tag)
+    LAST_WANT = want
     got = goja_run(binp, progs, wd, tag)
     byid = {p["id"]: p for p in progs}
     nfatal = sum(1 for p in progs if want[p["id"]]["ty"] == "fatal")
